@@ -61,6 +61,7 @@ C13_SCOPE = re.compile(
     r"reverse|setsize)"
     r"|qqueue_(push|pushstr|pushint|pop|popstr|popint|popat|get|getstr|getint|getat|clear|setsize)"
     r"|qstack_(push|pushstr|pushint|pop|popstr|popint|popat|get|getstr|getint|getat|clear|setsize)"
+    r"|qgrow_(add|addstr|addstrf|toarray|tostring|clear)"
     r"|qhashtbl_(put|putstr|putstrf|putint|get|getstr|getint|remove|clear)"
     r"|qlisttbl_(put|putstr|putstrf|putint|get|getstr|getint|getmulti|remove|removeobj|clear|sort|"
     r"reverse|save|load)"
@@ -229,6 +230,7 @@ class Builder:
         self.root_params = {c["id"] for c in root.params}
         self.local_vars = set()
         self.recursive_calls = set()
+        self.direct_calls = []     # functions of the analysed files called by the root's own body
         self.writes = set()        # (T, field) written anywhere in this graph (incl. inlined code)
         self.entry = self.new(("entry",), self.fline(root.node))
         self.cur = [self.entry]
@@ -556,6 +558,11 @@ class Builder:
         self.cur = outs
 
     def call_target(self, u, name, e):
+        if len(self.stack) == 1 and u is not None:
+            prim = self.p.primitive.get((u, name))
+            self.direct_calls.append(prim or name)
+        elif len(self.stack) == 1 and name in (M_ENTER, M_LEAVE):
+            self.direct_calls.append("lock" if name == M_ENTER else "unlock")
         if name == M_ENTER:
             self.emit(("lock",), e); return
         if name == M_LEAVE:
@@ -660,6 +667,7 @@ class Cfg:
         self.line = [line[o] for o in order]
         self.succ = [[idx[j] for j in succ[o]] for o in order]
         self.recursive = sorted(b.recursive_calls)
+        self.direct_calls = list(b.direct_calls)
         self.writes = b.writes
         self.label()
 
@@ -694,6 +702,63 @@ class Cfg:
                     elif self.depth[j] != d2:
                         self.problems.append(("node reached at depths %d and %d" % (self.depth[j], d2), j, i))
             todo = nxt
+
+    def label_phases(self):
+        """phase labels for the one-critical-section certificate (Conc/Atomic.lean): 1 inside a critical
+        section (depth >= 1); at depth 0: 0 = certainly no critical section so far, 2 = possibly after
+        one.  Least labelling with label(target) >= phase after the source's event.  A `lock` at depth 0
+        from a node labelled 2 is a SECOND outermost critical section on some path."""
+        n = len(self.ev)
+        ph = [0] * n
+        for i in range(n):
+            if (self.depth[i] or 0) >= 1:
+                ph[i] = 1
+        self.phase_parent = [None] * n
+        changed = True
+        while changed:
+            changed = False
+            for i in range(n):
+                d = self.depth[i] or 0
+                k = self.ev[i][0]
+                if k == "lock" and d == 0:
+                    a = 1
+                elif k == "unlock" and d == 1:
+                    a = 2
+                else:
+                    a = ph[i]
+                for j in self.succ[i]:
+                    if (self.depth[j] or 0) == 0 and a == 2 and ph[j] != 2:
+                        ph[j] = 2; self.phase_parent[j] = i; changed = True
+        self.phase = ph
+        self.second_cs = [i for i in range(n) if self.ev[i][0] == "lock" and (self.depth[i] or 0) == 0 and ph[i] == 2]
+        return ph
+
+    def atomic(self):
+        if not hasattr(self, "phase"):
+            self.label_phases()
+        return self.balanced() and not self.second_cs
+
+    def atomic_problem_text(self):
+        out = []
+        for i in self.second_cs[:3]:
+            # walk back to the release that ended the first critical section, then to the entry
+            chain, j = [i], i
+            while self.phase_parent[j] is not None:
+                j = self.phase_parent[j]; chain.append(j)
+            first = self.path_to(chain[-1])
+            nodes = first + chain[::-1][1:]
+            shown = [k for k in nodes if self.ev[k][0] in ("lock", "unlock", "entry")]
+            out.append("  %s: second outermost critical section on one path, entered at %s\n    path: %s" % (
+                self.name, self.describe(i), "  ->  ".join(self.describe(k) for k in shown)))
+        return "\n".join(out)
+
+    def max_sections(self):
+        """'0', '1' or '2+' outermost critical sections on some path"""
+        if not hasattr(self, "phase"):
+            self.label_phases()
+        if self.second_cs:
+            return "2+"
+        return "1" if any(e[0] == "lock" for e in self.ev) else "0"
 
     def path_to(self, i):
         p = []
@@ -800,6 +865,28 @@ def extract(repo, files=FILES):
             res.recursion_problems.append("%s is recursive and contains a lock primitive" % n)
     res.recursive = sorted(n for (_, n) in rec)
     res.c13 = [n for n in res.names if C13_SCOPE.match(n)]
+    # wrapper layer: every public function of the containers except constructors/destructors and qlog
+    res.atomic = [n for n in res.names if n not in CONSTRUCTORS and not n.endswith("_free") and not n.startswith("qlog")
+                  and (n.startswith("q") or n in ("namematch", "namecasematch"))]
+    locking = {n for n in res.names if any(e[0] == "lock" for e in res.cfgs[n].ev)}
+    res.table = []
+    for n in res.names:
+        c = res.cfgs[n]
+        calls = c.direct_calls
+        own = "lock" in calls
+        sl = [x for x in calls if x in locking]           # self-locking public callees, one entry per call site
+        sec = c.max_sections()
+        if sec == "2+":
+            cls = "NOT ATOMIC: several critical sections on one path"
+        elif sec == "0":
+            cls = "no lock taken" + (" (reads container fields unlocked)" if c.unlocked_accesses(res.immutable) else "")
+        elif own:
+            cls = "own lock" + (" held across %d self-locking call(s)" % len(sl) if sl else "")
+        elif sl:
+            cls = "one self-locking call per path" + (" (%d call sites on alternative paths)" % len(sl) if len(sl) > 1 else "")
+        else:
+            cls = "lock taken by a non-public helper"
+        res.table.append((n, sec, cls, sorted(set(sl))))
     return res
 
 
@@ -873,34 +960,61 @@ CERT_PARTS = 4
 
 
 def render_certs(res):
-    """-> {module file name: text}: LockCerts1..N.lean (balance, C14), LockWl1..N.lean (C13) and the
-    aggregating LockCerts.lean / LockWl.lean.  Split so that lake checks the parts in parallel."""
+    """-> {module file name: text}: LockCerts1..N.lean (balance, C14), LockWl1..N.lean (C13),
+    LockAtomic1..N.lean (one critical section per call, C13) and the aggregating LockCerts.lean /
+    LockWl.lean / LockAtomic.lean.  Split so that lake checks the parts in parallel."""
     files = {}
 
     def parts(names):
         k = (len(names) + CERT_PARTS - 1) // CERT_PARTS or 1
         return [names[i:i + k] for i in range(0, len(names), k)]
+
+    def agg_term(thm, names):
+        t = "fun _ h => absurd h List.not_mem_nil"
+        for n in reversed(names):
+            t = "List.forall_mem_cons.2 ⟨%s_%s, %s⟩" % (thm, n, t)
+        return t
     for stem, names, thm, stmt, lst in (
             ("LockCerts", res.names, "bal", "balancedCfg cfg_%s = true", "allCfgs"),
-            ("LockWl", res.c13, "wl", "wellLockedCfg lockExempt cfg_%s = true", "c13Cfgs")):
+            ("LockWl", res.c13, "wl", "wellLockedCfg lockExempt cfg_%s = true", "c13Cfgs"),
+            ("LockAtomic", res.atomic, "atomic", "phasesOk phases_%s cfg_%s = true", "atomicCfgs")):
         imports = []
         for k, chunk in enumerate(parts(names), 1):
             out = ["/- GENERATED by translator/lockcfg.py -- do not edit.  One certificate per function; a function",
-                   "   whose skeleton has an unbalanced path / an unlocked access makes its `decide` fail. -/",
-                   "import QlibcModel.Generated.LockCfg", "namespace Qlibc.Generated", "open Qlibc.Conc", ""]
+                   "   whose skeleton has an unbalanced path / an unlocked access / a second critical section on",
+                   "   one path makes its `decide` fail. -/",
+                   "import QlibcModel.Generated.LockCfg"] + (["import QlibcModel.Conc.Atomic"] if thm == "atomic" else []) + [
+                   "namespace Qlibc.Generated", "open Qlibc.Conc", ""]
             for n in chunk:
-                out.append("theorem %s_%s : %s := by decide +kernel" % (thm, n, stmt % n))
+                if thm == "atomic":
+                    out.append("def phases_%s : List Nat := [%s]" % (n, ", ".join(map(str, res.cfgs[n].label_phases()))))
+                    out.append("theorem atomic_%s : %s := by decide +kernel" % (n, stmt % (n, n)))
+                else:
+                    out.append("theorem %s_%s : %s := by decide +kernel" % (thm, n, stmt % n))
             out += ["", "end Qlibc.Generated", ""]
             files["%s%d.lean" % (stem, k)] = "\n".join(out)
             imports.append("import QlibcModel.Generated.%s%d" % (stem, k))
-        pred = "balancedCfg c.2" if thm == "bal" else "wellLockedCfg lockExempt c.2"
         agg = ["/- GENERATED by translator/lockcfg.py -- do not edit. -/"] + imports + [
-            "namespace Qlibc.Generated", "open Qlibc.Conc", "",
-            "theorem %s_all : ∀ c ∈ %s, %s = true := by" % (thm, lst, pred),
-            "  intro c hc", "  simp only [%s, List.mem_cons, List.not_mem_nil, or_false] at hc" % lst,
-            "  rcases hc with " + " | ".join(["rfl"] * len(names)) if names else "  cases hc"]
-        if names:
-            agg += ["  " + "\n  ".join("· exact %s_%s" % (thm, n) for n in names)]
+            "namespace Qlibc.Generated", "open Qlibc.Conc", ""]
+        if thm == "atomic":
+            agg += ["/-- wrapper layer (C13): every public function of the containers except constructors and destructors,",
+                    "    with the phase labelling that certifies ONE outermost critical section per call -/",
+                    "def atomicCfgs : List (String × List Nat × Cfg) := [\n%s]\n" % ",\n".join(
+                        '  ("%s", phases_%s, cfg_%s)' % (n, n, n) for n in names),
+                    "/-- how each public function reaches the lock (function, #outermost critical sections on a path,",
+                    "    classification, self-locking public functions it calls directly) -- documentation of the table",
+                    "    the certificates decide -/",
+                    "def wrapperLayer : List (String × String × String × List String) := [\n%s]\n" % ",\n".join(
+                        '  ("%s", "%s", "%s", [%s])' % (n, sec, cls, ", ".join('"%s"' % x for x in sl)) for n, sec, cls, sl in res.table),
+                    "theorem atomic_all : ∀ c ∈ atomicCfgs, phasesOk c.2.1 c.2.2 = true :=",
+                    "  " + agg_term(thm, names), "",
+                    "/-- the same functions are balanced (C14's certificates) -/",
+                    "theorem atomic_bal_all : ∀ c ∈ atomicCfgs, balancedCfg c.2.2 = true :=",
+                    "  " + agg_term("bal", names)]
+            agg.insert(1, "import QlibcModel.Generated.LockCerts")
+        else:
+            pred = "balancedCfg c.2" if thm == "bal" else "wellLockedCfg lockExempt c.2"
+            agg += ["theorem %s_all : ∀ c ∈ %s, %s = true :=" % (thm, lst, pred), "  " + agg_term(thm, names)]
         agg += ["", "end Qlibc.Generated", ""]
         files[stem + ".lean"] = "\n".join(agg)
     return files
@@ -922,6 +1036,9 @@ def report(res, out=sys.stdout):
         print(res.cfgs[n].problem_text(), file=out)
     for p in res.recursion_problems:
         print("  " + p, file=out)
+    for n in res.atomic:
+        if not res.cfgs[n].atomic() and res.cfgs[n].balanced():
+            print(res.cfgs[n].atomic_problem_text(), file=out)
     for n in res.c13:
         c = res.cfgs[n]
         bad = c.unlocked_accesses(res.immutable)
@@ -930,7 +1047,14 @@ def report(res, out=sys.stdout):
                 n, "; ".join(c.describe(i) for i in bad[:6])), file=out)
 
 
+def print_table(res, out=sys.stdout):
+    for n, sec, cls, sl in res.table:
+        print("%-22s %-2s %s%s" % (n, sec, cls, (" -> " + ", ".join(sl)) if sl else ""), file=out)
+
+
 if __name__ == "__main__":
-    repo = sys.argv[1] if len(sys.argv) > 1 else os.environ.get("VERIF_REPO", "/repo")
+    repo = sys.argv[1] if len(sys.argv) > 1 and not sys.argv[1].startswith("-") else os.environ.get("VERIF_REPO", "/repo")
     r = extract(repo)
     report(r)
+    if "--table" in sys.argv:
+        print_table(r)
